@@ -7,7 +7,8 @@ Three parties per generated case:
   optima computed here with `fractions.Fraction` (translation, affine), the closed form (2-D) / Horn's quaternion
   eigenvalue (3-D) for the best rotation, centroid / size identities, interpolation and per-triangle affinity checks,
   `aligned_source() == apply(source)`, `alignment_error() == ||requested target - apply(source)||`;
-* the Lean model `Core/C07Align.lean` run through `Drive/C07.lean` on the same inputs as exact rationals.
+* the Lean model `Core/C07Align.lean` run through `Drive/C07.lean` on the same inputs as exact rationals
+  (theorems: `Props/C07Base.lean` single alignments, `Props/C07.lean` degenerate sizes / TPS affine recovery / GPA).
 """
 import json
 import math
@@ -21,55 +22,94 @@ PROP = "C07"
 INFO = dict(
     technique="Lean 4 proof (least-squares optimality by orthogonality of the residual, Kabsch with and without the "
               "determinant constraint from the SVD contract, exact recovery from optimality + full rank, barycentric "
-              "algebra for piecewise-affine maps, block-system algebra for thin-plate splines) + model/implementation "
+              "algebra for piecewise-affine maps, block-system algebra for thin-plate splines incl. exact recovery of "
+              "affine maps, invariant by induction over the generalized-Procrustes iteration) + model/implementation "
               "correspondence on generated alignments",
     level_text="Theorems over an executable model of the alignment constructors (exact rational arithmetic, matrices "
                "generic in the number of points and in the dimension): translation and affine alignments minimise the "
                "squared error over their whole family; the rotation alignment is optimal among all orthogonal maps "
                "when mirroring is allowed (every dimension) and among proper rotations otherwise (2-D and 3-D, the "
                "determinant-corrected Kabsch solution) and never has determinant -1 unless mirroring is allowed; scale "
-               "and similarity alignments reproduce size (and centroid) exactly and the similarity uses the "
-               "least-squares rotation; every family member is recovered; thin-plate splines and piecewise-affine "
-               "maps interpolate, the latter being affine per triangle and single-valued on shared edges; aligned "
-               "source = transform(source), alignment error = distance(requested target, aligned source) for a "
-               "constructor that keeps the requested target, and identically 0 for the constructor of the original "
-               "tree (refuted with a witness).  The model is tied to /repo by running the real classes on generated "
-               "point sets and diffing matrices, coefficients, triangle choices, targets and errors against the Lean "
-               "driver; an independent oracle decides the property on the real code.",
+               "and similarity alignments reproduce size (and centroid) exactly, are the only members of their family "
+               "doing so (uniform scale; similarity with rotation=False), and the similarity uses the "
+               "least-squares rotation; every family member is recovered; the scale/similarity alignments have no "
+               "finite answer exactly for zero-size sources and collapse onto a zero-size target; thin-plate splines "
+               "as coded (truncated-SVD inverse on a symmetric system): exact interpolation when no singular value is "
+               "dropped, otherwise the miss is exactly the dropped component of the data; affine maps are recovered "
+               "exactly (zero bending part); piecewise-affine maps on a triangulation that passes the executable "
+               "conformity certificate (evaluated in Lean on the triangle list of every generated alignment): "
+               "single-valued (continuous across edges and vertices), interpolating, affine on every closed triangle, "
+               "recovering affine maps; generalized Procrustes "
+               "(mean, rescale to the initial size, re-target, 1e-6 test, iteration bound, the ValueError) returns on "
+               "every exit path transforms that are the similarity alignments of their sources to one common final "
+               "target, hence each reproduces its centroid and size, uses the least-squares rotation and is no "
+               "reflection unless allowed; aligned source = transform(source), alignment error = distance(requested "
+               "target, aligned source) for a constructor that keeps the requested target, and identically 0 for the "
+               "constructor of the original tree (refuted with a witness).  The model is tied to /repo by running the "
+               "real classes on generated point sets (all shape classes as sources/targets, int64/float32/float64 "
+               "arrays, constructor-born and re-targeted objects; also the public functions procrustes_alignment, "
+               "optimal_rotation_matrix, index_alpha_beta) and diffing matrices, coefficients, triangle choices and "
+               "barycentric coordinates, targets, errors, GPA iteration counts/convergence flags/targets against the "
+               "Lean driver; constructor signatures/defaults and method providers of the live classes are regenerated "
+               "into a Lean table with decide obligations on every run; an "
+               "independent oracle decides the property on the real code.",
     level_note="Trusted: Lean kernel; axioms propext/Classical.choice/Quot.sound; the Python harness and the driver's "
                "parser.  Contract parameters (checked numerically on every case, not proved): np.linalg.svd returns "
                "orthogonal factors with non-negative, descending singular values; np.linalg.norm/sqrt returns the "
                "non-negative root; RBF kernel values (arbitrary in the theorem); scipy Delaunay returns a conforming "
-               "triangulation.  np.linalg.solve and the TPS pseudo-inverse are NOT assumed: the model's solve is "
+               "triangulation.  For generalized Procrustes the answers of norm/svd in every pass are supplied by an "
+               "independent numpy transcription of the iteration (gpa_replica) and the model re-runs the iteration "
+               "exactly on them.  np.linalg.solve and the TPS pseudo-inverse are NOT assumed: the model's solve is "
                "checked in Lean (solveChecked_spec).  Float rounding is not modelled (exact arithmetic, 1e-9 "
-               "relative comparison, conditioning bounded on the input).",
+               "relative comparison, 1e-4 for float32 point arrays, conditioning bounded on the input).",
     rule="classes x {2-D, 3-D where supported} x 3..12 points; targets = family member(source) (exact recovery), "
-         "member + dyadic noise at 4 levels, or arbitrary; small dyadic coordinates; near-degenerate inputs (rank, "
-         "singular-value gaps, TPS conditioning, points within 1e-6 of a triangle edge) rejected on the input.  "
-         "distinct = distinct (class, options, source, target); non-trivial = target differs from source and the "
-         "source spans the space",
+         "member + dyadic noise at 4 levels, or arbitrary; small dyadic coordinates; sources/targets given as any of the "
+         "8 shape classes (point cloud, graphs, tree, labelled graph, plain/coloured/textured mesh), as float64, "
+         "int64 or float32 arrays; duplicated (weighted) landmarks, collinear 2-D and coplanar 3-D landmark sets for "
+         "the rotating classes, landmarks 2^20 from the origin for the classes that centre first; piecewise-affine "
+         "sources = Delaunay of a point set, or meshes carrying their own (grid with either diagonal, non-Delaunay "
+         "quad split, fan of a convex polygon) triangulation, CachedPWA and PythonPWA; GPA over 1..5 sources in "
+         "2-D/3-D with and without mirroring / a given target; constructor-born and re-targeted objects; "
+         "near-degenerate inputs (rank, singular-value gaps, TPS conditioning, points within 1e-6 of a triangle edge, "
+         "a GPA convergence test within 0.1% of its threshold) rejected on the input; zero-size sources/targets are "
+         "generated but only recorded (counted as trivial).  distinct = distinct (class, options, source, target); "
+         "non-trivial = target differs from source and the source spans the space",
     partial=["uniform-scale family members used for exact recovery are the positive scales (a negative factor is a "
              "scale composed with a point reflection; the norm-ratio fit cannot and does not claim to return it)",
              "'scale and similarity alignments reproduce the target's centroid and overall size' is read "
              "distributively: the one-parameter scale family reproduces size, the similarity centroid and size",
-             "thin-plate splines: the theorem covers the branch of _build_coefficients in which no singular value "
-             "falls below min_singular_val (then the truncated pseudo-inverse is the inverse); generated systems stay "
-             "20x above the 1e-4 threshold.  Below it the code deliberately drops directions and no longer "
-             "interpolates exactly (seen at 68 random landmarks in the unit square) - treated as the degenerate "
-             "case the quantifier excludes",
-             "generalized Procrustes is decided by the oracle only (each member transform is a similarity alignment "
-             "covered by the theorems; the iteration itself belongs to C08)",
-             "piecewise-affine theorems assume a conforming, non-degenerate source triangulation (Delaunay contract); "
-             "points exactly on an edge are compared by value only, and float containment excluding a point that "
-             "lies exactly on the hull boundary is counted, not judged",
+             "thin-plate splines: _build_coefficients is modelled as coded (tpsFitSvd on the svd's answers; theorems "
+             "tps_svd_interpolates / tps_svd_miss need the svd contract and a symmetric kernel matrix, both checked "
+             "per case).  When a singular value falls below min_singular_val (near-coincident landmarks) the code "
+             "drops that direction on purpose and no longer interpolates: such systems are generated (landmarks "
+             "2^-10..2^-14 apart), compared with the model and recorded, but not judged - the degenerate case the "
+             "quantifier excludes; judged systems stay 20x above the 1e-4 threshold; exact recovery of affine maps "
+             "assumes the system invertible (a checked right inverse; the model computes one on every affine-image case)",
+             "generalized Procrustes: the theorems are about the iteration given what norm/svd answered in each pass "
+             "(contract hypotheses only for the last pass); that the iteration converges for members of one "
+             "similarity class is decided by the oracle, not proved; max_iterations is fixed at 100 inside the "
+             "constructor, so the not-converged exit is proved for the model (and shown on a concrete run) but is not "
+             "driven through the public API",
+             "zero-size sources/targets (excluded by the quantifier) are modelled (fitScaleE/simFitE: no finite answer "
+             "iff the source has zero size) and recorded per run, but a disagreement there is only counted, not judged",
+             "piecewise affine: conformity of the triangulation is no longer assumed but checked - the executable "
+             "certificate pwaCertB (non-degenerate triangles, any two of them on the same vertices or weakly separated "
+             "by a line through two of their vertices that they touch only in shared vertices) is evaluated in Lean on "
+             "the triangle list of every generated alignment and the theorems are proved from it; the certificate is "
+             "sufficient, not necessary (a legal mesh with duplicated vertices would fail it and be reported as a "
+             "broken tie); float containment excluding a point that lies exactly on the hull boundary is counted, "
+             "not judged",
              "no-mirror rotation theorems are stated for 2-D and 3-D (the dimensions menpo's affine family supports); "
              "the mirror-allowed, translation, affine, scale, similarity-centroid/size theorems are dimension-generic"],
     assumptions=["np.linalg.svd contract (orthogonal U, Vt; D >= 0 descending; U diag(D) Vt = M), verified to 1e-9 "
-                 "against the exact correlation matrix on every rotation/similarity case",
+                 "against the exact correlation matrix on every rotation/similarity case and on the last pass of every "
+                 "GPA case",
                  "np.linalg.norm returns the non-negative square root (verified against the exact squared norm)",
-                 "source point sets are non-degenerate (full rank, distinct points), as the property's quantifier says"],
+                 "source point sets are non-degenerate (full rank for the affine fit, positive size, distinct "
+                 "landmarks for TPS/PWA), as the property's quantifier says"],
     design_ref="DESIGN.md section 6, C07; section 7 #22")
-IMPORTS = ["MenpoModel.Props.C07"]
+IMPORTS = ["MenpoModel.Props.C07", "MenpoModel.GenProps.C07"]
+TARGETS = ["MenpoModel.Props.C07", "MenpoModel.Drive.C07", "MenpoModel.GenProps.C07"]
 _T = "MenpoModel.C07."
 THEOREMS = [_T + t for t in [
     "translation_ls_optimal", "translation_ls_excess", "translation_recovery",
@@ -88,10 +128,33 @@ THEOREMS = [_T + t for t in [
     "pwaApply_some", "pwa_interpolates", "pwa_affine_in_triangle", "pwa_on_edge",
     "aligned_source_def", "alignment_error_def", "alignment_error_resync_zero", "alignment_error_resync_refuted",
     "ofArr_toArr",
-]]
+    # extension (Props/C07.lean): degenerate sizes, TPS recovers affine maps, generalized Procrustes
+    "norm2_eq_zero_iff", "fitScaleE_none_iff", "fitScaleE_some", "simFitE_none_iff", "simFitE_some",
+    "zero_size_target_collapses",
+    "tpsL_mul_affineCoef", "solve_unique", "tps_affine_recovery", "tps_affine_no_bending", "tps_affine_exact",
+    "triMap_recovers_affine", "pwa_recovers_affine",
+    "tps_interp_of_solves", "tps_svd_product", "tpsKeep_full", "tps_svd_interpolates", "tps_svd_miss", "tpsL_symm",
+    "scale_unique", "similarity_norot_unique",
+    "triMap_combo3", "orient_combo3", "contains_combo", "pair_weights", "pair_agree",
+    "pwa_single_valued", "pwa_affine_on_closed_triangle", "pwa_interpolates_cert", "pwa_on_edge_cert",
+    "ofArr_simAlignTab", "gpaRec_inv", "gpa_none_iff", "gpa_transforms_are_alignments",
+    "gpa_reproduces_centroid", "gpa_reproduces_size",
+    "gpa_uses_ls_rotation_mirror", "gpa_uses_ls_rotation_2d", "gpa_uses_ls_rotation_3d",
+    "linPart_simFit_rot", "gpa_no_reflection_2d", "gpa_no_reflection_3d",
+    "gpa_reported_target_none", "gpa_reported_target_some",
+    "gpa_converged_spec", "gpa_not_converged_spec", "gpa_nIter_le",
+    "scaleAboutCentre_centroid", "scaleAboutCentre_norm2", "gpaNewTarget_centroid", "gpaNewTarget_size",
+]] + ["MenpoModel.GenProps.C07.entries_wf", "MenpoModel.GenProps.C07.gpa_live_ok"]
 
 TOL = 1e-9
+TOL32 = 1e-4
 F = Fraction
+
+
+def case_tol(case):
+    """comparison tolerance of a case: 1e-9 relative; 1e-4 relative when the point arrays are float32 (the
+    implementation then computes in single precision)"""
+    return TOL32 if case.get("dtype") == "f32" else TOL
 
 
 # ============================================================================ small exact helpers (oracle side)
@@ -163,6 +226,54 @@ def best_rotation_value(M, mirror):
 
 
 # ============================================================================ generators
+
+SHAPE_CLASSES = ["PointCloud", "PointUndirectedGraph", "PointDirectedGraph", "PointTree",
+                 "LabelledPointUndirectedGraph", "TriMesh", "ColouredTriMesh", "TexturedTriMesh"]
+MESH_CLASSES = ["TriMesh", "ColouredTriMesh", "TexturedTriMesh"]
+GRAPH_CLASSES = ["PointCloud", "PointUndirectedGraph", "PointDirectedGraph", "PointTree", "LabelledPointUndirectedGraph"]
+
+
+def fan_trilist(n):
+    return [[0, i, i + 1] for i in range(1, n - 1)]
+
+
+def make_shape(points, shape_cls="PointCloud", trilist=None, dtype=None):
+    """a menpo shape of class `shape_cls` holding `points`: every alignment must read only the points (and, for
+    piecewise affine, a mesh's own triangulation), whatever extra structure the object carries"""
+    import menpo.shape as ms
+    P = np.array(points, dtype=float)
+    if dtype == "int" and np.all(P == np.round(P)):
+        P = P.astype(np.int64)
+    elif dtype == "f32" and np.all(P.astype(np.float32).astype(float) == P):
+        P = P.astype(np.float32)
+    n = P.shape[0]
+    if shape_cls == "PointCloud":
+        return ms.PointCloud(P)
+    if shape_cls in ("PointUndirectedGraph", "LabelledPointUndirectedGraph"):
+        edges = np.array([[i, (i + 1) % n] for i in range(n)])
+        g = ms.PointUndirectedGraph.init_from_edges(P, edges)
+        if shape_cls == "PointUndirectedGraph":
+            return g
+        return ms.LabelledPointUndirectedGraph.init_with_all_label(P, g.adjacency_matrix)
+    if shape_cls == "PointDirectedGraph":
+        return ms.PointDirectedGraph.init_from_edges(P, np.array([[i, (i + 1) % n] for i in range(n)]))
+    if shape_cls == "PointTree":
+        return ms.PointTree.init_from_edges(P, np.array([[i, i + 1] for i in range(n - 1)]), root_vertex=0)
+    tl = np.array(trilist if trilist is not None else fan_trilist(n))
+    if shape_cls == "TriMesh":
+        return ms.TriMesh(P, trilist=tl)
+    if shape_cls == "ColouredTriMesh":
+        cols = np.linspace(0.0, 1.0, n * 3).reshape(n, 3)
+        return ms.ColouredTriMesh(P, trilist=tl, colours=cols)
+    if shape_cls == "TexturedTriMesh":
+        from menpo.image import Image
+        lo = P[:, :2].min(axis=0)
+        span = np.ptp(P[:, :2], axis=0)
+        span[span == 0] = 1.0
+        tcoords = (P[:, :2] - lo) / span
+        return ms.TexturedTriMesh(P, tcoords, Image.init_blank((4, 4), n_channels=1), trilist=tl)
+    raise ValueError(shape_cls)
+
 
 def gen_points(rng, n, d, kmax=24, mexp=2):
     """n points in d dims, small dyadic coordinates, full rank, distinct, reasonably conditioned"""
@@ -303,10 +414,27 @@ def gen_homog_case(rng, cls, opts, d=None, kind=None):
     planar = d == 3 and rotating and not opts["mirror"] and rng.random() < 0.3
     if planar and kind in ("improper", "arbitrary"):
         kind = "noise1" if kind == "improper" else "noise3"   # gen_points cannot draw fewer than d+1 points
+    # collinear 2-D landmarks (rank-1 correlation matrix: the proper rotation is still unique); through the origin for
+    # the rotation about the origin, anywhere for the similarity (which centres first)
+    collinear = d == 2 and rotating and not opts["mirror"] and rng.random() < 0.15
+    if collinear and kind in ("improper", "arbitrary"):
+        kind = "noise1" if kind == "improper" else "noise3"
+    # landmarks far from the origin (offset 2^20, exactly representable) for the classes that centre first
+    far = (cls in ("translation", "scale") or cls == "similarity") and not planar and not collinear and rng.random() < 0.08
+    dup = not planar and not collinear and rng.random() < 0.12
     for _ in range(200):
         n = rng.randint(d + 1, 12) if rng.random() < 0.85 else d + 1
         n = max(n, 3)
-        if planar:
+        if collinear:
+            n = rng.choice([3, 3, 4, 5, 7])
+            while True:
+                v = np.array([rng.randint(-4, 4), rng.randint(-4, 4)], dtype=float)
+                if v.any():
+                    break
+            ts = rng.sample([x / 2.0 for x in range(-10, 11) if x != 0], n)
+            p0 = np.zeros(2) if cls == "rotation" else np.array([common.dyadic(rng, 24, 2), common.dyadic(rng, 24, 2)])
+            S = p0 + np.outer(ts, v)
+        elif planar:
             # coplanar 3-D landmarks (a flat template) or just three points: the correlation matrix has rank 2
             n = rng.choice([3, 3, 4, 5, 7])
             P2 = gen_points(rng, n, 2)
@@ -315,6 +443,13 @@ def gen_homog_case(rng, cls, opts, d=None, kind=None):
             S = S[:, rng.sample(range(3), 3)]
         else:
             S = gen_points(rng, n, d)
+        if dup:
+            # the same landmark listed twice or three times (a weighted point), each copy with its own target
+            extra = [rng.randrange(n) for _ in range(rng.choice([1, 2, 3]))]
+            S = np.vstack([S, S[extra]])
+            n = S.shape[0]
+        if far:
+            S = S + float(2 ** 20) * np.array([rng.choice([-1, 1]) for _ in range(d)])
         T, member = gen_target(rng, cls, opts, S, kind)
         if cls in ("rotation", "similarity") and (cls == "rotation" or opts.get("rotation")):
             if cls == "rotation":
@@ -328,9 +463,89 @@ def gen_homog_case(rng, cls, opts, d=None, kind=None):
                 continue
         if cls in ("scale", "similarity") and np.linalg.norm(T - T.mean(axis=0)) < 1e-3:
             continue
-        return dict(cls=cls, opts=opts, S=S.tolist(), T=T.tolist(), kind=kind,
+        if far and not (np.all(S == np.round(S * 64) / 64) and np.all(T == np.round(T * 64) / 64)):
+            continue                                        # the offset target must stay exactly representable
+        case = dict(cls=cls, opts=opts, S=S.tolist(), T=T.tolist(), kind=kind,
                     member=None if member is None else [[str(x) for x in r] for r in member])
+        for flag, on in (("collinear", collinear), ("planar", planar), ("far", far), ("dup", dup)):
+            if on:
+                case.setdefault("shape", []).append(flag)
+        return case
     raise common.Infra("C07 generator could not produce a well-conditioned %s case" % cls)
+
+
+def gen_degenerate_case(rng):
+    """inputs the property's quantifier excludes (zero-size source or target: all points coincide) for the classes
+    that divide by a size.  Not judged - the run records what the code does (raises / non-finite / finite) next to
+    what the model says (`fitScaleE` / `simFitE`: no finite answer exactly for a zero-size source)."""
+    cls, opts = rng.choice([("scale", {}), ("similarity", {"rotation": True, "mirror": False}),
+                            ("similarity", {"rotation": False, "mirror": False}),
+                            ("similarity", {"rotation": True, "mirror": True}), ("affine", {})])
+    d = rng.choice([2, 3])
+    if cls == "affine":
+        # a source that does not span the space (collinear 2-D / coplanar 3-D): a a^T is singular
+        n = rng.randint(d + 1, 6)
+        B = gen_points(rng, n, d - 1)
+        coef = [rng.randint(-2, 2) for _ in range(d - 1)]
+        S = np.column_stack([B, B.dot(np.array(coef, dtype=float)) + rng.randint(-3, 3)])
+        T = gen_points(rng, n, d)
+        return dict(cls=cls, opts=opts, S=S.tolist(), T=T.tolist(), kind="flat-source", degenerate="flat-source", member=None)
+    n = rng.randint(3, 6)
+    pt = [common.dyadic(rng, 24, 2) for _ in range(d)]
+    P = gen_points(rng, max(n, d + 1), d)
+    n = P.shape[0]
+    Z = np.array([pt] * n)
+    which = rng.choice(["zero-source", "zero-source", "zero-target", "zero-both"])
+    S, T = {"zero-source": (Z, P), "zero-target": (P, Z), "zero-both": (Z, Z + 1.0)}[which]
+    return dict(cls=cls, opts=opts, S=S.tolist(), T=T.tolist(), kind=which, degenerate=which, member=None)
+
+
+def run_degenerate(ctx, case, cid, lines, pending):
+    import warnings
+    cls, o = case["cls"], case["opts"]
+    Sp, Tp = np.array(case["S"], dtype=float), np.array(case["T"], dtype=float)
+    n, d = Sp.shape
+    H = None
+    with warnings.catch_warnings():
+        warnings.simplefilter("ignore")
+        try:
+            a = _build_fresh(case)[0]
+            H = np.array(a.h_matrix, dtype=float)
+            beh = "finite" if np.all(np.isfinite(H)) else "non-finite"
+        except Exception as e:  # noqa: BLE001 - which error (if any) is exactly what is being recorded
+            beh = "raises-" + type(e).__name__
+    rS = float(np.linalg.norm(Sp - Sp.mean(axis=0)))
+    rT = float(np.linalg.norm(Tp - Tp.mean(axis=0)))
+    sS, sT = mat_tok(Sp), mat_tok(Tp)
+    if cls == "scale":
+        lines.append("%s.fit scale %s %s %s %s" % (cid, sS, sT, common.fq(rT), common.fq(rS)))
+    elif cls == "affine":
+        lines.append("%s.fit affine %s %s" % (cid, sS, sT))
+    else:
+        I = np.eye(d)
+        lines.append("%s.fit similarity %d %d %s %s %s %s %s %s" % (
+            cid, int(o["rotation"]), int(o["mirror"]), sS, sT, common.fq(rT), common.fq(rS), mat_tok(I), mat_tok(I)))
+    pending[cid] = dict(case=case, degenerate=True, behaviour=beh, H=H)
+
+
+def compare_degenerate(ctx, cid, pend, model):
+    case, beh, H = pend["case"], pend["behaviour"], pend["H"]
+    reply = model.get(cid + ".fit", "")
+    m = "no-finite-answer" if reply.startswith("err zero-size-source") or reply.startswith("err singular") \
+        else ("finite" if reply.startswith("ok") else "other")
+    agree = (m == "no-finite-answer") == (beh != "finite")
+    if m == "finite" and beh == "finite":
+        d = len(case["S"][0])
+        nums = parse_nums(reply)
+        Hm = nums[2:2 + (d + 1) ** 2] if case["cls"] == "scale" else nums[:(d + 1) ** 2]
+        if len(Hm) < (d + 1) ** 2:
+            Hm = [0] * ((d + 1) ** 2)
+        Hm = np.array([float(x) for x in Hm]).reshape(d + 1, d + 1)
+        agree = bool(np.allclose(H, Hm, rtol=0, atol=1e-9 * (1 + norm_scale(Hm))))
+    ctx.count("degenerate:%s:%s:code=%s:model=%s:%s" % (case["degenerate"], case["cls"], beh, m, "agree" if agree else "DIFFER"))
+    ctx.notes.setdefault("degenerate_inputs", {})
+    key = "%s %s%s" % (case["degenerate"], CLASSNAME[case["cls"]], "" if case["cls"] != "similarity" else "(rotation=%s)" % case["opts"]["rotation"])
+    ctx.notes["degenerate_inputs"][key] = "code: %s; model: %s" % (beh, m)
 
 
 def gen_rotx_case(rng, d, mirror):
@@ -368,9 +583,17 @@ def gen_rotx_case(rng, d, mirror):
 def gen_tps_case(rng, kind=None):
     from menpo.transform.rbf import R2LogR2RBF
     kind = kind or rng.choice(["arbitrary", "noise1", "affine-image"])
+    truncated = kind != "affine-image" and rng.random() < 0.08
     for _ in range(400):
         n = rng.randint(4, 10)
         S = gen_points(rng, n, 2, kmax=16, mexp=3) if rng.random() < 0.6 else gen_points(rng, n, 2, kmax=16, mexp=2)
+        if truncated:
+            # two landmarks 2^-10 .. 2^-14 apart: one singular value of the system falls below min_singular_val and the
+            # code drops that direction (outside the property's quantifier: recorded, compared with the model, not judged)
+            n = rng.randint(5, 9)
+            S = gen_points(rng, n - 1, 2, kmax=16, mexp=2)
+            e = 2.0 ** -rng.randint(10, 14)
+            S = np.vstack([S, S[rng.randrange(n - 1)] + np.array(rng.choice([[e, 0.0], [0.0, e], [e, e]]))])
         if kind == "affine-image":
             H = member_matrix(rng, "affine", {}, 2)
             T = to_float(apply_exact(H, S))
@@ -384,6 +607,11 @@ def gen_tps_case(rng, kind=None):
         sv = np.linalg.svd(L, compute_uv=False)
         # the code drops singular values below min_singular_val = 1e-4 (then it no longer inverts l): stay 20x
         # above that threshold and bound the condition number, both judged on the input system
+        if truncated:
+            if not (sv[-1] < 5e-5 and sv[-2] > 2e-3 and sv[0] / sv[-2] < 1e6):
+                continue
+            probes = [[common.dyadic(rng, 24, 3), common.dyadic(rng, 24, 3)] for _ in range(3)]
+            return dict(cls="tps", opts={}, S=S.tolist(), T=T.tolist(), kind=kind, probes=probes, truncated=True)
         if sv[-1] < 2e-3 or sv[0] / sv[-1] > 1e6:
             continue
         probes = [[common.dyadic(rng, 24, 3), common.dyadic(rng, 24, 3)] for _ in range(3)]
@@ -413,10 +641,38 @@ def exact_bary(S, tri, p):
     return a, b
 
 
-def gen_pwa_case(rng, kind=None):
-    from menpo.shape import TriMesh
-    kind = kind or rng.choice(["delaunay", "delaunay", "grid"])
+def convex_polygon(rng, m):
+    """m vertices of a strictly convex polygon in counter-clockwise order, small dyadic coordinates"""
     for _ in range(200):
+        ang = sorted(rng.sample(range(32), m))
+        if max((ang[(i + 1) % m] - ang[i]) % 32 for i in range(m)) >= 15:
+            continue
+        r = [rng.choice([4, 5, 6, 7, 8]) for _ in range(m)]
+        P = np.array([[round(4 * r[i] * math.cos(2 * math.pi * ang[i] / 32)) / 4.0,
+                       round(4 * r[i] * math.sin(2 * math.pi * ang[i] / 32)) / 4.0] for i in range(m)])
+        ok = True
+        for i in range(m):
+            a_, b_, c_ = P[i], P[(i + 1) % m], P[(i + 2) % m]
+            cr = (b_[0] - a_[0]) * (c_[1] - b_[1]) - (b_[1] - a_[1]) * (c_[0] - b_[0])
+            if cr < 1.0:
+                ok = False
+        if ok:
+            return P
+    return None
+
+
+def delaunay_set(P):
+    from scipy.spatial import Delaunay
+    return {tuple(sorted(int(v) for v in t)) for t in Delaunay(P).simplices}
+
+
+def gen_pwa_case(rng, kind=None):
+    """source meshes: Delaunay of a point set (source given as a point cloud / graph: the alignment triangulates it
+    itself), a jittered grid whose cells are split along either diagonal, a convex quad split along the diagonal the
+    Delaunay triangulation would NOT choose, a fan triangulation of a convex polygon from a random apex.  The three
+    own-triangulation kinds are handed over as TriMesh, ColouredTriMesh or TexturedTriMesh."""
+    kind = kind or rng.choice(["delaunay", "delaunay", "grid", "grid", "quad", "fan", "fan"])
+    for _ in range(400):
         if kind == "grid":
             w, h = rng.randint(2, 3), rng.randint(2, 3)
             pts, tris = [], []
@@ -432,7 +688,22 @@ def gen_pwa_case(rng, kind=None):
                     tris += [[a, b, c], [b, e, c]] if rng.random() < 0.5 else [[a, b, e], [a, e, c]]
             S = np.array(pts)
             trilist = np.array(tris)
+        elif kind in ("quad", "fan"):
+            m = 4 if kind == "quad" else rng.randint(5, 8)
+            S = convex_polygon(rng, m)
+            if S is None:
+                continue
+            apex = rng.randrange(m)
+            order = [(apex + i) % m for i in range(m)]
+            trilist = np.array([[order[0], order[i], order[i + 1]] for i in range(1, m - 1)])
+            if kind == "quad":
+                # the other diagonal than Delaunay's (a co-circular quad has no preferred one: redraw)
+                if {tuple(sorted(t)) for t in trilist.tolist()} == delaunay_set(S):
+                    trilist = np.array([[order[1], order[2], order[3]], [order[1], order[3], order[0]]])
+                if {tuple(sorted(t)) for t in trilist.tolist()} == delaunay_set(S):
+                    continue
         else:
+            from menpo.shape import TriMesh
             n = rng.randint(4, 9)
             S = gen_points(rng, n, 2, kmax=16, mexp=1)
             trilist = np.array(TriMesh(S).trilist)
@@ -447,7 +718,7 @@ def gen_pwa_case(rng, kind=None):
                 ok = False
         if not ok:
             continue
-        mode = rng.choice(["arbitrary", "affine-image", "noise"])
+        mode = rng.choice(["arbitrary", "affine-image", "noise", "noise"])
         if mode == "affine-image":
             T = to_float(apply_exact(member_matrix(rng, "affine", {}, 2), S))
         elif mode == "noise":
@@ -456,7 +727,7 @@ def gen_pwa_case(rng, kind=None):
             T = np.array([[common.dyadic(rng, 24, 2) for _ in range(2)] for _ in range(n)])
         # probe points: strict interior (dyadic barycentric weights), exact edge points, clearly outside
         probes = []
-        for _ in range(4):
+        for _ in range(6 if kind != "delaunay" else 4):
             t = trilist[rng.randrange(len(trilist))]
             w = [rng.randint(1, 6) for _ in range(3)]
             sw = 16
@@ -471,24 +742,127 @@ def gen_pwa_case(rng, kind=None):
             probes.append(dict(kind="edge", u=u, v=v, c=c, owners=owners, p=p.tolist()))
         lo, hi = S.min(axis=0), S.max(axis=0)
         probes.append(dict(kind="outside", p=[float(hi[0] + 3.0), float(hi[1] + 2.5)]))
-        return dict(cls="pwa", opts={"mesh": kind}, S=S.tolist(), T=T.tolist(), kind=mode,
-                    trilist=trilist.tolist(), probes=probes)
+        src_cls = rng.choice(GRAPH_CLASSES) if kind == "delaunay" else rng.choice(MESH_CLASSES)
+        tgt_cls = rng.choice(SHAPE_CLASSES)
+        impl = rng.choice(["PiecewiseAffine", "PiecewiseAffine", "PythonPWA"])
+        return dict(cls="pwa", opts={"mesh": kind, "source_class": src_cls, "target_class": tgt_cls, "impl": impl},
+                    S=S.tolist(), T=T.tolist(), kind=mode, trilist=trilist.tolist(), probes=probes)
     raise common.Infra("C07 generator could not produce a PWA case")
 
 
+def polar_ok(M, mirror, gap=0.05):
+    """conditioning of one Kabsch step inside an *iteration* (stricter than rot_gap_ok: errors are fed back)"""
+    s = np.linalg.svd(M, compute_uv=False)
+    if s[0] <= 0:
+        return False
+    if mirror:
+        return s[-1] > 1e-3 * s[0] and (s[-2] + s[-1]) > gap * s[0]
+    if s[-1] <= 1e-12 * s[0]:
+        return s[-2] > gap * s[0]           # exactly rank-deficient: the proper rotation is still unique
+    dm = np.linalg.det(M)
+    if abs(dm) < 1e-6 * s[0] ** len(s):
+        return False
+    return (s[-2] + (1.0 if dm > 0 else -1.0) * s[-1]) > gap * s[0]
+
+
+def gpa_replica(shapes, target, mirror, max_iterations=100):
+    """GPA written out in plain numpy from the class docstrings (mean shape, rescale to the initial size, re-align,
+    stop when the mean moves less than 1e-6), recording what every external routine (norm, svd) returned.  It is
+    the source of the contract witnesses the Lean model needs and it judges conditioning *on the inputs*: `ok` is
+    False when some Kabsch step is ill-conditioned or the convergence test sits within 0.1 % of its threshold."""
+    shapes = [np.asarray(x, dtype=float) for x in shapes]
+    k = len(shapes)
+    ok = True
+
+    def fit(S, T):
+        nonlocal ok
+        cS, cT = S.mean(axis=0), T.mean(axis=0)
+        rS, rT = float(np.linalg.norm(S - cS)), float(np.linalg.norm(T - cT))
+        if rS < 1e-3 or rT < 1e-3:
+            ok = False
+            rS = rS or 1.0
+        Xs, Xt = (rT / rS) * (S - cS), T - cT
+        M = Xt.T.dot(Xs)
+        if not polar_ok(M, mirror):
+            ok = False
+        U, D, Vt = np.linalg.svd(M)
+        R = U.dot(Vt)
+        if not mirror and np.linalg.det(R) < 0:
+            E = np.eye(S.shape[1])
+            E[-1, -1] = -1
+            R = U.dot(E).dot(Vt)
+        return dict(rT=rT, rS=rS, U=U, Vt=Vt), Xs.dot(R.T) + cT
+
+    tgt = np.asarray(target, dtype=float) if target is not None else sum(shapes) / k
+    w0, aligned = zip(*[fit(S, tgt) for S in shapes])
+    init_scale = float(np.linalg.norm(tgt - tgt.mean(axis=0)))
+    n_iter, ws, deltas = 1, [], []
+    converged = False
+    while n_iter <= max_iterations:
+        mean = sum(aligned) / k
+        c = mean.mean(axis=0)
+        nn = float(np.linalg.norm(mean - c))
+        if nn < 1e-3:
+            ok = False
+            break
+        new = (init_scale / nn) * (mean - c) + c
+        delta = float(np.linalg.norm(tgt - new))
+        deltas.append(delta)
+        if abs(delta - 1e-6) < 1e-9:
+            ok = False
+        if delta < 1e-6:
+            ws.append(dict(newNorm=nn, sims=list(w0)))     # the sims of this pass are never used
+            converged = True
+            break
+        sims, aligned = zip(*[fit(S, new) for S in shapes])
+        ws.append(dict(newNorm=nn, sims=list(sims)))
+        tgt = new
+        n_iter += 1
+    return dict(ok=ok, w0=list(w0), init_scale=init_scale, ws=ws, n_iter=n_iter, converged=converged, target=tgt,
+                deltas=deltas)
+
+
 def gen_gpa_case(rng, kind=None):
-    kind = kind or rng.choice(["members", "noisy"])
-    d = 2
-    n = rng.randint(4, 8)
-    base = gen_points(rng, n, d)
-    shapes = []
-    for _ in range(rng.randint(3, 5)):
-        H = member_matrix(rng, "similarity", {"rotation": True, "mirror": False}, d)
-        P = to_float(apply_exact(H, base))
-        if kind == "noisy":
-            P = P + np.array([[rng.randint(-2, 2) / 8.0 for _ in range(d)] for _ in range(n)])
-        shapes.append(P.tolist())
-    return dict(cls="gpa", opts={}, S=shapes, T=None, kind=kind)
+    """sources = similarity images of one base shape (exact members / noisy at two levels) or unrelated shapes;
+    2-D and 3-D; with and without mirroring; with and without a given target; boundary sizes (2 sources, 1 source with
+    a target, 3 points in 3-D: rank-deficient Kabsch steps); duplicated sources"""
+    kind = kind or rng.choice(["members", "noisy", "noisy", "noisy2", "unrelated"])
+    for _ in range(200):
+        d = rng.choice([2, 2, 3])
+        mirror = rng.random() < 0.3
+        n = rng.randint(d + 1, 8)
+        if d == 3 and not mirror and rng.random() < 0.25:
+            n = 3                                          # centring makes a 3-D triangle rank 2
+            base = np.array([[common.dyadic(rng, 24, 2) for _ in range(3)] for _ in range(3)])
+            if np.linalg.svd(base - base.mean(axis=0), compute_uv=False)[1] < 0.5:
+                continue
+        else:
+            base = gen_points(rng, n, d)
+        k = rng.choice([2, 2, 3, 3, 4, 5])
+        shapes = []
+        for _ in range(k):
+            if kind == "unrelated":
+                P = base + np.array([[rng.randint(-8, 8) / 4.0 for _ in range(d)] for _ in range(n)])
+            else:
+                H = member_matrix(rng, "similarity", {"rotation": True, "mirror": mirror}, d)
+                P = to_float(apply_exact(H, base))
+                if kind in ("noisy", "noisy2"):
+                    lvl = 8.0 if kind == "noisy" else 2.0
+                    P = P + np.array([[rng.randint(-2, 2) / lvl for _ in range(d)] for _ in range(n)])
+            shapes.append(P.tolist())
+        if k >= 3 and rng.random() < 0.15:
+            shapes[-1] = [list(r) for r in shapes[0]]      # the same source twice
+        target = None
+        if rng.random() < 0.3:
+            Ht = member_matrix(rng, "similarity", {"rotation": True, "mirror": False}, d)
+            target = (to_float(apply_exact(Ht, base)) + np.array([[rng.randint(-1, 1) / 4.0 for _ in range(d)] for _ in range(n)])).tolist()
+            if rng.random() < 0.3:
+                shapes = shapes[:1]                        # a single source is legal when a target is given
+        rep = gpa_replica(shapes, target, mirror)
+        if not rep["ok"] or rep["n_iter"] > 40:
+            continue
+        return dict(cls="gpa", opts={"mirror": mirror, "target": target is not None}, S=shapes, T=target, kind=kind)
+    raise common.Infra("C07 generator could not produce a well-conditioned GPA case")
 
 
 # ============================================================================ the implementation + the oracle
@@ -508,15 +882,53 @@ def code_of(case):
             "tps": "ThinPlateSplines(S, T)", "pwa": "PiecewiseAffine(S, T)"}.get(cls)
     if cls == "gpa":
         return ("import numpy as np\nfrom menpo.shape import PointCloud\nfrom menpo.transform import GeneralizedProcrustesAnalysis\n"
-                "shapes=[PointCloud(np.array(s)) for s in %r]\ng=GeneralizedProcrustesAnalysis(shapes)\n"
-                "print([t.alignment_error() for t in g.transforms])" % (case["S"],))
-    src = "PointCloud(np.array(%r))" % (case["S"],)
-    if cls == "pwa" and case["opts"].get("mesh") == "grid":
-        src = "TriMesh(np.array(%r), trilist=np.array(%r))" % (case["S"], case["trilist"])
-    return ("import numpy as np\nfrom menpo.shape import PointCloud, TriMesh\nfrom menpo.transform import *\n"
-            "S=%s\nT=PointCloud(np.array(%r))\na=%s\n"
+                "shapes=[PointCloud(np.array(s)) for s in %r]\ntarget=%s\n"
+                "g=GeneralizedProcrustesAnalysis(shapes, target=target, allow_mirror=%r)\n"
+                "print(g.converged, g.n_iterations, [t.alignment_error() for t in g.transforms])"
+                % (case["S"], "None" if case.get("T") is None else "PointCloud(np.array(%r))" % (case["T"],),
+                   bool(case["opts"].get("mirror", False))))
+    own = cls == "pwa" and o.get("mesh") != "delaunay"
+    if cls == "pwa":
+        ctor = "%s(S, T)" % o.get("impl", "PiecewiseAffine")
+    dt = case.get("dtype")
+    return ("import numpy as np\nfrom collections import OrderedDict\nfrom menpo.image import Image\nfrom menpo.shape import *\n"
+            "from menpo.transform import *\nfrom menpo.transform.piecewiseaffine.base import PythonPWA\n"
+            "%s%sa=%s\n"
             "print('alignment_error', a.alignment_error(), 'true residual', np.linalg.norm(a.apply(S.points)-T.points))\n"
-            "print('target is the requested one', np.array_equal(a.target.points, T.points))" % (src, case["T"], ctor))
+            "print('target is the requested one', np.array_equal(a.target.points, T.points))"
+            % (shape_code("S", case["S"], o.get("source_class", "PointCloud"), case.get("trilist") if own else None, dt),
+               shape_code("T", case["T"], o.get("target_class", "PointCloud"), None, dt), ctor))
+
+
+def shape_code(name, points, shape_cls, trilist, dtype):
+    """python source building the shape `make_shape` builds"""
+    n = len(points)
+    conv = {"int": ".astype(np.int64)", "f32": ".astype(np.float32)"}.get(dtype, "")
+    P = np.array(points, dtype=float)
+    if dtype == "int" and not np.all(P == np.round(P)):
+        conv = ""
+    out = "P_%s=np.array(%r)%s\n" % (name, [list(map(float, r)) for r in points], conv)
+    cyc = [[i, (i + 1) % n] for i in range(n)]
+    tl = trilist if trilist is not None else fan_trilist(n)
+    if shape_cls == "PointCloud":
+        out += "%s=PointCloud(P_%s)\n" % (name, name)
+    elif shape_cls == "PointUndirectedGraph":
+        out += "%s=PointUndirectedGraph.init_from_edges(P_%s, np.array(%r))\n" % (name, name, cyc)
+    elif shape_cls == "LabelledPointUndirectedGraph":
+        out += ("%s=LabelledPointUndirectedGraph.init_with_all_label(P_%s, PointUndirectedGraph.init_from_edges(P_%s, "
+                "np.array(%r)).adjacency_matrix)\n" % (name, name, name, cyc))
+    elif shape_cls == "PointDirectedGraph":
+        out += "%s=PointDirectedGraph.init_from_edges(P_%s, np.array(%r))\n" % (name, name, cyc)
+    elif shape_cls == "PointTree":
+        out += "%s=PointTree.init_from_edges(P_%s, np.array(%r), root_vertex=0)\n" % (name, name, [[i, i + 1] for i in range(n - 1)])
+    elif shape_cls == "TriMesh":
+        out += "%s=TriMesh(P_%s, trilist=np.array(%r))\n" % (name, name, tl)
+    elif shape_cls == "ColouredTriMesh":
+        out += "%s=ColouredTriMesh(P_%s, trilist=np.array(%r))\n" % (name, name, tl)
+    elif shape_cls == "TexturedTriMesh":
+        out += ("%s=TexturedTriMesh(P_%s, (P_%s[:, :2]-P_%s[:, :2].min(axis=0))/np.maximum(np.ptp(P_%s[:, :2], axis=0), 1e-9), "
+                "Image.init_blank((4, 4), n_channels=1), trilist=np.array(%r))\n" % (name, name, name, name, name, tl))
+    return out
 
 
 def rp(case, **kw):
@@ -532,9 +944,15 @@ def build(case):
     exist, an alignment to another target) and was then brought to T with set_target; property C08 makes it the same
     alignment, so every C07 clause must hold for it as for a fresh one."""
     a, S, T = _build_fresh(case)
-    if case.get("life") != "retargeted" or case["cls"] == "pwa":
+    if case.get("life") != "retargeted":
         return a, S, T
     from menpo.shape import PointCloud
+    if case["cls"] == "pwa":
+        # previous life: aligned to another target (its pseudoinverse would have another source mesh)
+        other = np.array(case["T"], dtype=float)[::-1] * 0.5 + np.array(case["S"], dtype=float) * 0.5 + 1.0
+        b = _build_fresh(dict(case, T=other.tolist(), life=None))[0]
+        b.set_target(T)
+        return b, b.source, T
     try:
         other = PointCloud(np.array(case["S"], dtype=float)[::-1] * 1.5 + 1.0)
         rev = dict(case, S=other.points.tolist(), T=case["S"], life=None)
@@ -548,11 +966,12 @@ def build(case):
 
 
 def _build_fresh(case):
-    from menpo.shape import PointCloud, TriMesh
     import menpo.transform as mt
     cls, o = case["cls"], case["opts"]
-    S = PointCloud(np.array(case["S"], dtype=float))
-    T = PointCloud(np.array(case["T"], dtype=float))
+    own = cls == "pwa" and o.get("mesh") != "delaunay"
+    dt = case.get("dtype")
+    S = make_shape(case["S"], o.get("source_class", "PointCloud"), case.get("trilist") if own else None, dt)
+    T = make_shape(case["T"], o.get("target_class", "PointCloud"), None, dt)
     if cls == "translation":
         return mt.AlignmentTranslation(S, T), S, T
     if cls == "scale":
@@ -566,8 +985,9 @@ def _build_fresh(case):
     if cls == "tps":
         return mt.ThinPlateSplines(S, T), S, T
     if cls == "pwa":
-        if o.get("mesh") == "grid":
-            S = TriMesh(np.array(case["S"], dtype=float), trilist=np.array(case["trilist"]))
+        if o.get("impl") == "PythonPWA":
+            from menpo.transform.piecewiseaffine.base import PythonPWA
+            return PythonPWA(S, T), S, T
         return mt.PiecewiseAffine(S, T), S, T
     raise ValueError(cls)
 
@@ -582,6 +1002,7 @@ def oracle_common(ctx, case, a, S, T, obs):
     cn = CLASSNAME[case["cls"]]
     Sp, Tp = np.array(case["S"], dtype=float), np.array(case["T"], dtype=float)
     sc = norm_scale(Sp, Tp)
+    TOL = case_tol(case)
     applied = a.apply(Sp)
     al = a.aligned_source().points
     ctx.check(np.allclose(al, applied, rtol=0, atol=TOL * (1 + sc)), "C07/%s.aligned_source" % cn, "differs-from-apply",
@@ -609,6 +1030,7 @@ def sq_err(X, T):
 
 def oracle_homog(ctx, case, a, obs):
     cls, o = case["cls"], case["opts"]
+    TOL = case_tol(case)      # 1e-9, or 1e-4 for float32 point arrays (DESIGN section 3)
     cn = CLASSNAME[cls]
     Sp, Tp = np.array(case["S"], dtype=float), np.array(case["T"], dtype=float)
     n, d = Sp.shape
@@ -624,7 +1046,10 @@ def oracle_homog(ctx, case, a, obs):
     # ---- exact recovery of the generating member
     if case.get("member") is not None:
         Hm = np.array([[float(F(x)) for x in r] for r in case["member"]])
-        ctx.check(np.allclose(H, Hm, rtol=0, atol=TOL * (1 + norm_scale(Hm))), site + ".recovery", "member-not-recovered",
+        # landmarks 2^20 away from the origin: a relative error eps of the linear part moves the translation column
+        # by eps * 2^20, so the coordinate scale enters the tolerance of those cases
+        hsc = norm_scale(Hm) + (sc if "far" in case.get("shape", []) else 0.0)
+        ctx.check(np.allclose(H, Hm, rtol=0, atol=TOL * (1 + hsc)), site + ".recovery", "member-not-recovered",
                   "target = member(source) but the fitted matrix differs from the member by %g" % float(np.max(np.abs(H - Hm))),
                   rp(case, fitted=H.tolist()))
         ctx.check(e2 <= tol2, site + ".recovery", "residual-not-zero",
@@ -655,7 +1080,7 @@ def oracle_homog(ctx, case, a, obs):
                   "norm of aligned source %.12g, norm of target %.12g" % (na, nt), rp(case))
     elif cls in ("rotation", "rotx"):
         ctx.check(np.allclose(t, 0, rtol=0, atol=TOL), site + ".family", "has-translation", "rotation with translation", rp(case))
-        ctx.check(np.allclose(L.dot(L.T), np.eye(d), rtol=0, atol=1e-9), site + ".family", "not-orthogonal",
+        ctx.check(np.allclose(L.dot(L.T), np.eye(d), rtol=0, atol=TOL), site + ".family", "not-orthogonal",
                   "R R^T differs from I by %g" % float(np.max(np.abs(L.dot(L.T) - np.eye(d)))), rp(case))
         dt = float(np.linalg.det(L))
         if not o["mirror"]:
@@ -680,7 +1105,7 @@ def oracle_homog(ctx, case, a, obs):
         R = L / s
         s_lin = math.sqrt(max(float(np.sum(L * L)) / d, 1e-300))   # L = s R  =>  ||L||_F^2 = d s^2
         Rl = L / s_lin
-        ctx.check(np.allclose(Rl.dot(Rl.T), np.eye(d), rtol=0, atol=1e-9), site + ".family", "not-a-similarity",
+        ctx.check(np.allclose(Rl.dot(Rl.T), np.eye(d), rtol=0, atol=TOL), site + ".family", "not-a-similarity",
                   "linear part is not a multiple of an orthogonal matrix (off by %g)" % float(np.max(np.abs(Rl.dot(Rl.T) - np.eye(d)))), rp(case))
         if o["rotation"]:
             if not o["mirror"]:
@@ -694,7 +1119,7 @@ def oracle_homog(ctx, case, a, obs):
                       "source achieves" % (e2, eopt), rp(case, optimum=eopt))
             obs["opt2"] = eopt
         else:
-            ctx.check(np.allclose(L, L[0, 0] * np.eye(d), rtol=0, atol=1e-9 * (1 + abs(L[0, 0]))), site + ".family",
+            ctx.check(np.allclose(L, L[0, 0] * np.eye(d), rtol=0, atol=TOL * (1 + abs(L[0, 0]))), site + ".family",
                       "rotated-although-rotation-false", "rotation=False but the linear part is not a multiple of I", rp(case))
     # ---- a few explicit competitors of the same family (perturbations of the fitted map)
     if cls in ("translation", "affine", "rotation", "rotx") or (cls == "similarity" and o["rotation"]):
@@ -725,8 +1150,12 @@ def oracle_tps(ctx, case, a, obs):
     Sp, Tp = np.array(case["S"], dtype=float), np.array(case["T"], dtype=float)
     sc = norm_scale(Sp, Tp)
     out = obs["applied"]
-    ctx.check(np.allclose(out, Tp, rtol=0, atol=1e-8 * (1 + sc)), "C07/ThinPlateSplines.interpolation", "landmark-missed",
-              "a source landmark is sent %g away from its target landmark" % float(np.max(np.abs(out - Tp))), rp(case))
+    if case.get("truncated"):
+        # near-coincident landmarks: the code drops a direction on purpose; recorded, not judged
+        ctx.count("tps:truncated-system:max-landmark-miss=%s" % ("0" if np.allclose(out, Tp, rtol=0, atol=1e-8 * (1 + sc)) else ">0"))
+    else:
+        ctx.check(np.allclose(out, Tp, rtol=0, atol=1e-8 * (1 + sc)), "C07/ThinPlateSplines.interpolation", "landmark-missed",
+                  "a source landmark is sent %g away from its target landmark" % float(np.max(np.abs(out - Tp))), rp(case))
     if case["kind"] == "affine-image":
         # an affine image has no bending part: probes map affinely
         P = np.array(case["probes"], dtype=float)
@@ -747,16 +1176,36 @@ def oracle_pwa(ctx, case, a, obs):
     out = obs["applied"]
     ctx.check(np.allclose(out, Tp, rtol=0, atol=TOL * (1 + sc)), site + ".interpolation", "landmark-missed",
               "a source landmark is sent %g away from its target landmark" % float(np.max(np.abs(out - Tp))), rp(case))
+    if case["opts"].get("mesh") != "delaunay":
+        # the source is a mesh: the piecewise-affine map is affine inside each of *its* triangles, so the
+        # alignment has to work on the mesh's own triangulation
+        got = sorted(tuple(sorted(int(v) for v in t)) for t in np.asarray(a.trilist).tolist())
+        want = sorted(tuple(sorted(int(v) for v in t)) for t in case["trilist"])
+        ctx.check(got == want, site + ".source_mesh", "source-triangulation-replaced",
+                  "the source %s carries the triangulation %r but the alignment works on %r"
+                  % (case["opts"].get("source_class", "TriMesh"), want, got), rp(case, alignment_trilist=got))
     from menpo.transform.piecewiseaffine import TriangleContainmentError
-    res = []
+    res, abs_ = [], []
     for pr in case["probes"]:
         p = np.array([pr["p"]], dtype=float)
+        ab = None
         try:
             q = a.apply(p)[0]
-            ti = int(a.index_alpha_beta(p)[0][0])
+            iab = a.index_alpha_beta(p)
+            ti = int(iab[0][0])
+            ab = (float(iab[1][0]), float(iab[2][0]))
         except TriangleContainmentError:
             q, ti = None, None
         res.append((q, ti))
+        abs_.append(ab)
+        if pr["kind"] == "interior" and ab is not None and ti is not None:
+            # index_alpha_beta is public: the coordinates it reports reconstruct the point in the triangle it names
+            tri_ = np.asarray(a.trilist)[ti]
+            rec = Sp[tri_[0]] + ab[0] * (Sp[tri_[1]] - Sp[tri_[0]]) + ab[1] * (Sp[tri_[2]] - Sp[tri_[0]])
+            ctx.check(np.allclose(rec, p[0], rtol=0, atol=TOL * (1 + sc)) and ab[0] >= -1e-12 and ab[1] >= -1e-12 and ab[0] + ab[1] <= 1 + 1e-12,
+                      site + ".index_alpha_beta", "not-barycentric",
+                      "index_alpha_beta names triangle %r with (alpha, beta) = %r, which is not the point %r"
+                      % (tri_.tolist(), ab, pr["p"]), rp(case, probe=pr))
         if pr["kind"] == "interior":
             want = sum(w * Tp[v] for w, v in zip(pr["w"], pr["tri"]))
             ctx.check(q is not None and np.allclose(q, want, rtol=0, atol=TOL * (1 + sc)), site + ".affine_in_triangle",
@@ -790,33 +1239,137 @@ def oracle_pwa(ctx, case, a, obs):
             ctx.check(q is None, site + ".domain", "outside-point-mapped", "a point outside every source triangle was mapped",
                       rp(case, probe=pr))
     obs["probe_out"] = res
+    obs["probe_ab"] = abs_
+
+
+def build_gpa(case):
+    from menpo.transform import GeneralizedProcrustesAnalysis
+    o = case["opts"]
+    classes = case.get("src_classes") or ["PointCloud"] * len(case["S"])
+    shapes = [make_shape(sp, c) for sp, c in zip(case["S"], classes)]
+    target = None if case.get("T") is None else make_shape(case["T"], case.get("tgt_class", "PointCloud"))
+    g = GeneralizedProcrustesAnalysis(shapes, target=target, allow_mirror=bool(o.get("mirror", False)))
+    return g, shapes, target
 
 
 def oracle_gpa(ctx, case):
-    from menpo.shape import PointCloud
-    from menpo.transform import GeneralizedProcrustesAnalysis
-    shapes = [PointCloud(np.array(s, dtype=float)) for s in case["S"]]
-    g = GeneralizedProcrustesAnalysis(shapes)
+    """every transform GPA returns is a similarity alignment of its source to the transform's own target: the
+    clauses of the property for similarity alignments are judged on each of them"""
+    g, shapes, target = build_gpa(case)
+    mirror = bool(case["opts"].get("mirror", False))
     site = "C07/GeneralizedProcrustesAnalysis"
-    sc = norm_scale(*[s.points for s in shapes])
+    sc = norm_scale(*[np.asarray(s.points, dtype=float) for s in shapes])
     for k, t in enumerate(g.transforms):
-        Sp = shapes[k].points
+        Sp = np.asarray(shapes[k].points, dtype=float)
+        n, d = Sp.shape
         applied = t.apply(Sp)
         al = t.aligned_source().points
         ctx.check(np.allclose(al, applied, rtol=0, atol=TOL * (1 + sc)), site + ".aligned_source", "differs-from-apply",
                   "transform %d: aligned_source() differs from apply(source)" % k, rp(case))
-        tt = t.target.points
+        tt = np.asarray(t.target.points, dtype=float)
         ctx.check(common.close(t.alignment_error(), np.linalg.norm(tt - applied), sc * 4, TOL), site + ".alignment_error",
                   "wrong-value", "transform %d: alignment_error() is not the distance to its target" % k, rp(case))
         ctx.check(np.allclose(applied.mean(axis=0), tt.mean(axis=0), rtol=0, atol=TOL * (1 + sc)), site + ".centroid",
                   "centroid-not-reproduced", "transform %d does not reproduce its target's centroid" % k, rp(case))
         ctx.check(common.close(np.linalg.norm(applied - applied.mean(axis=0)), np.linalg.norm(tt - tt.mean(axis=0)), sc * 4, TOL),
                   site + ".size", "size-not-reproduced", "transform %d does not reproduce its target's size" % k, rp(case))
-    if case["kind"] == "members":
+        # least-squares rotation, never a reflection unless allowed
+        H = np.array(t.h_matrix, dtype=float)
+        L = H[:d, :d]
+        ns, nt = np.linalg.norm(Sp - Sp.mean(axis=0)), np.linalg.norm(tt - tt.mean(axis=0))
+        if ns > 1e-9 and nt > 1e-9:
+            sfac = nt / ns
+            R = L / sfac
+            ctx.check(np.allclose(R.dot(R.T), np.eye(d), rtol=0, atol=1e-8), site + ".family", "not-a-similarity",
+                      "transform %d: linear part is not a multiple of an orthogonal matrix" % k, rp(case))
+            if not mirror:
+                ctx.check(np.linalg.det(R) > 0, site + ".no_reflection", "reflection-returned",
+                          "transform %d: allow_mirror=False but det = %.6g" % (k, float(np.linalg.det(R))), rp(case))
+            Xs, Xt = sfac * (Sp - Sp.mean(axis=0)), tt - tt.mean(axis=0)
+            best = best_rotation_value(Xt.T.dot(Xs), mirror)
+            eopt = float(np.sum(Xs ** 2) + np.sum(Xt ** 2) - 2 * best)
+            e2 = float(np.sum((tt - applied) ** 2))
+            ctx.check(e2 <= eopt + 10 * TOL * (1 + sc * sc * n * d), site + ".ls_rotation", "rotation-not-least-squares",
+                      "transform %d: squared error %.12g exceeds %.12g, what the least-squares rotation of the centred, "
+                      "rescaled source achieves" % (k, e2, eopt), rp(case, optimum=eopt))
+    if target is None:
+        # without a given target "the target" of the group alignment is gpa.target: every member is aligned to it
+        gt = np.asarray(g.target.points, dtype=float)
+        for k, t in enumerate(g.transforms):
+            ctx.check(np.allclose(np.asarray(t.target.points, dtype=float), gt, rtol=0, atol=TOL * (1 + sc)),
+                      site + ".common_target", "member-aligned-to-another-target",
+                      "transform %d is aligned to a point set that is not the group's target (off by %g)"
+                      % (k, float(np.max(np.abs(np.asarray(t.target.points, dtype=float) - gt)))), rp(case))
+    if case["kind"] == "members" and target is None:
         e = g.mean_alignment_error()
-        ctx.check(e <= 1e-6 * (1 + sc), site + ".recovery", "members-not-aligned",
+        ctx.check(e <= 1e-5 * (1 + sc), site + ".recovery", "members-not-aligned",
                   "all sources are similarity images of one shape but the mean alignment error is %g" % e, rp(case))
-    return g
+    return g, shapes
+
+
+def gpa_model_line(cid, case, rep):
+    """request line for the Lean model of GPA: the sources, the optional target and, pass by pass, what the
+    external routines returned (`gpa_replica`)"""
+    def simw(w):
+        return "%s %s %s %s" % (common.fq(w["rT"]), common.fq(w["rS"]), mat_tok(w["U"]), mat_tok(w["Vt"]))
+    o = case["opts"]
+    parts = [cid + ".fit", "gpa", str(int(bool(o.get("mirror")))), str(int(case.get("T") is not None)), str(len(case["S"]))]
+    parts += [mat_tok(x) for x in case["S"]]
+    if case.get("T") is not None:
+        parts.append(mat_tok(case["T"]))
+    parts += [simw(w) for w in rep["w0"]]
+    parts += [common.fq(rep["init_scale"]), "100", str(len(rep["ws"]))]
+    for w in rep["ws"]:
+        parts.append(common.fq(w["newNorm"]))
+        parts += [simw(x) for x in w["sims"]]
+    return " ".join(parts)
+
+
+def compare_gpa(ctx, cid, pend, model):
+    case, g, rep = pend["case"], pend["g"], pend["rep"]
+    reply = model.get(cid + ".fit", "")
+    nums = parse_nums(reply)
+    if nums is None:
+        ctx.mismatch("gpa", "model answered %r where the implementation produced alignments" % reply, rp(case))
+        return
+    k = len(case["S"])
+    n, d = np.array(case["S"][0]).shape
+    sc = norm_scale(*[np.array(x) for x in case["S"]])
+    conv, nit, rest = int(nums[0]), int(nums[1]), nums[2:]
+    reported, rest = take(rest, n * d)
+    atgt, rest = take(rest, n * d)
+    if bool(conv) != bool(g.converged) or nit != int(g.n_iterations):
+        ctx.mismatch("gpa", "iteration: implementation converged=%r after n_iterations=%d, model converged=%d nIter=%d "
+                     "(replica deltas %r)" % (g.converged, g.n_iterations, conv, nit, rep["deltas"][-3:]), rp(case))
+        return
+    ctx.count("gpa-iterations:%d" % nit)
+    cmp_mat(ctx, "gpa", "reported target", np.asarray(g.target.points, dtype=float), reported, (n, d), case, scale=sc, tol=1e-8)
+    hh = (d + 1) * (d + 1)
+    for a_ in range(k):
+        Hm, rest = take(rest, hh)
+        t = g.transforms[a_]
+        cmp_mat(ctx, "gpa", "h_matrix of transform %d" % a_, np.array(t.h_matrix, dtype=float), Hm, (d + 1, d + 1), case,
+                scale=sc, tol=1e-8)
+        cmp_mat(ctx, "gpa", "target of transform %d" % a_, np.asarray(t.target.points, dtype=float), atgt, (n, d), case,
+                scale=sc, tol=1e-8)
+    for a_ in range(k):
+        e2m = float(rest[a_])
+        e2 = float(g.transforms[a_].alignment_error()) ** 2
+        if abs(e2 - e2m) > 1e-8 * (1 + sc * sc * n * d):
+            ctx.mismatch("gpa", "alignment_error()^2 of transform %d: implementation %.12g vs model %.12g" % (a_, e2, e2m), rp(case))
+    # the externals' contract, against the model's exact final target (numerically, per DESIGN 2.1)
+    At = np.array([float(x) for x in atgt]).reshape(n, d)
+    last = rep["w0"] if nit == 1 else rep["ws"][nit - 2]["sims"]
+    okc = True
+    for a_ in range(k):
+        w = last[a_]
+        Sp = np.array(case["S"][a_], dtype=float)
+        n2S, n2T = float(np.sum((Sp - Sp.mean(axis=0)) ** 2)), float(np.sum((At - At.mean(axis=0)) ** 2))
+        okc &= common.close(w["rS"] ** 2, n2S, n2S, 1e-9) and common.close(w["rT"] ** 2, n2T, n2T, 1e-8) and w["rS"] > 0
+        okc &= bool(np.allclose(w["U"].T.dot(w["U"]), np.eye(d), atol=1e-9) and np.allclose(w["Vt"].dot(w["Vt"].T), np.eye(d), atol=1e-9))
+    ctx.count("gpa-witness-contract:" + ("ok" if okc else "BROKEN"))
+    if not okc:
+        ctx.mismatch("gpa", "norm / svd contract of the last pass does not hold against the model's exact final target", rp(case))
 
 
 # ============================================================================ model lines + comparison
@@ -837,14 +1390,37 @@ def harness_svd(M):
 def run_case(ctx, case, cid, lines, pending):
     """implementation + oracle for one case; appends model request lines; `pending[cid]` keeps what to compare"""
     cls, o = case["cls"], case["opts"]
-    ctx.count("class:" + cls + ("" if not o else ":" + ",".join("%s=%s" % kv for kv in sorted(o.items()))))
+    ko = {k_: v for k_, v in o.items() if k_ not in ("source_class", "target_class", "impl", "target")}
+    ctx.count("class:" + cls + ("" if not ko else ":" + ",".join("%s=%s" % kv for kv in sorted(ko.items()))))
+    for key in ("source_class", "target_class", "impl"):
+        if key in o:
+            ctx.count("%s:%s" % (key, o[key]))
+    if case.get("dtype"):
+        ctx.count("dtype:" + case["dtype"])
+    for flag in case.get("shape", []):
+        ctx.count("shape:" + flag)
+    if case.get("life"):
+        ctx.count("life:" + case["life"])
     ctx.count("kind:" + case["kind"])
     if cls == "gpa":
+        ctx.count("dims:%d" % len(case["S"][0][0]))
+        ctx.count("gpa-sources:%d" % len(case["S"]))
         try:
-            oracle_gpa(ctx, case)
+            g, shapes = oracle_gpa(ctx, case)
         except Exception as e:
-            ctx.fail("C07/GeneralizedProcrustesAnalysis", "raises", "GPA raised %s: %s" % (type(e).__name__, e), rp(case))
+            import traceback
+            ctx.fail("C07/GeneralizedProcrustesAnalysis", "raises", "GPA raised %s: %s" % (type(e).__name__, e),
+                     rp(case, trace=traceback.format_exc()[-800:]))
+            return
+        rep = gpa_replica(case["S"], case.get("T"), bool(o.get("mirror", False)))
+        if rep["ok"] and rep["n_iter"] <= 40:
+            lines.append(gpa_model_line(cid, case, rep))
+            pending[cid] = dict(case=case, g=g, rep=rep, gpa=True)
+        else:
+            ctx.count("gpa:ill-conditioned-not-modelled")
         return
+    if case.get("degenerate"):
+        return run_degenerate(ctx, case, cid, lines, pending)
     Sp, Tp = np.array(case["S"], dtype=float), np.array(case["T"], dtype=float)
     ctx.count("dims:%d" % Sp.shape[1])
     ctx.count("npoints:%d" % Sp.shape[0])
@@ -877,6 +1453,9 @@ def run_case(ctx, case, cid, lines, pending):
     elif cls == "rotation":
         U, D, Vt = harness_svd(Tp.T.dot(Sp))
         pend["svd"] = (U, D, Vt)
+        # the public function the class is built on, called directly on the same shapes
+        from menpo.transform.homogeneous.rotation import optimal_rotation_matrix
+        pend["fn_R"] = np.array(optimal_rotation_matrix(S, T, allow_mirror=o["mirror"]), dtype=float)
         lines.append("%s.fit rotation %d %s %s %s %s" % (cid, int(o["mirror"]), sS, sT, mat_tok(U), mat_tok(Vt)))
     elif cls == "rotx":
         lines.append("%s.fit rotx %d %s %s %s %d %s %s" % (
@@ -889,6 +1468,8 @@ def run_case(ctx, case, cid, lines, pending):
         Xt = Tp - Tp.mean(axis=0)
         U, D, Vt = harness_svd(Xt.T.dot(Xs))
         pend["svd"] = (U, D, Vt)
+        from menpo.transform.homogeneous.similarity import procrustes_alignment
+        pend["fn_H"] = np.array(procrustes_alignment(S, T, rotation=o["rotation"], allow_mirror=o["mirror"]).h_matrix, dtype=float)
         lines.append("%s.fit similarity %d %d %s %s %s %s %s %s" % (
             cid, int(o["rotation"]), int(o["mirror"]), sS, sT, common.fq(rT), common.fq(rS), mat_tok(U), mat_tok(Vt)))
     elif cls == "tps":
@@ -898,9 +1479,22 @@ def run_case(ctx, case, cid, lines, pending):
         pend["tps_probe_out"] = a.apply(P)
         pend["coef"] = np.array(a.coefficients)
         pr = " ".join("%s %s %s" % (common.fq(P[i, 0]), common.fq(P[i, 1]), common.fqs(KP[i])) for i in range(len(P)))
-        lines.append("%s.fit tps %s %s %s %d %s" % (cid, mat_tok(K), sS, sT, len(P), pr))
+        if not case.get("truncated"):
+            lines.append("%s.fit tps %s %s %s %d %s" % (cid, mat_tok(K), sS, sT, len(P), pr))
+        # the branch as coded: what np.linalg.svd answers for the system matrix the object holds
+        Lm = np.array(a.l, dtype=float)
+        U_, s_, Vt_ = np.linalg.svd(Lm)
+        pend["tps_svd"] = (Lm, U_, s_, Vt_)
+        lines.append("%s.svd tpssvd %s %s %s %s %d %s %s %s %d %s" % (
+            cid, mat_tok(K), sS, sT, mat_tok(U_), len(s_), common.fqs(s_), mat_tok(Vt_),
+            common.fq(float(a.min_singular_val)), len(P), pr))
+        if case["kind"] == "affine-image":
+            lines.append("%s.aff tpsaff %s %s %s" % (cid, mat_tok(K), sS, sT))
+            pend["bending"] = np.array(a.coefficients)[:Sp.shape[0]]
     elif cls == "pwa":
-        tl = np.array(a.trilist).tolist()
+        # a mesh source is modelled with the triangulation it carries; a point-cloud / graph source with the
+        # triangulation the alignment chose (Delaunay contract)
+        tl = np.array(a.trilist).tolist() if case["opts"].get("mesh") == "delaunay" else [list(t) for t in case["trilist"]]
         pend["trilist"] = tl
         pts = [pr["p"] for pr in case["probes"]] + Sp.tolist()
         lines.append("%s.fit pwa %s %s %d %s %d %s" % (
@@ -935,24 +1529,73 @@ def cmp_mat(ctx, op, what, got, want_fr, shape, case, scale=None, tol=TOL):
     return True
 
 
+def compare_tps_svd(ctx, cid, pend, model):
+    """the truncated-SVD branch of _build_coefficients as coded (model: tpsFitSvd on the implementation's own svd
+    answers): contract of the svd checked numerically, coefficients and probe values compared"""
+    case = pend["case"]
+    n = len(case["S"])
+    Lm, U_, s_, Vt_ = pend["tps_svd"]
+    m = n + 3
+    okc = bool(np.allclose(U_.dot(np.diag(s_)).dot(Vt_), Lm, rtol=0, atol=1e-9 * (1 + norm_scale(Lm))) and
+               np.allclose(U_.T.dot(U_), np.eye(m), atol=1e-9) and np.allclose(Vt_.dot(Vt_.T), np.eye(m), atol=1e-9) and
+               np.all(s_ >= 0) and np.all(np.diff(s_) <= 0))
+    ctx.count("tps-svd-contract:" + ("ok" if okc else "BROKEN"))
+    nums = parse_nums(model.get(cid + ".svd", ""))
+    if nums is None or not okc:
+        ctx.mismatch("tps", "as-coded model: reply %r, svd contract %s" % (model.get(cid + ".svd", "")[:80], okc), rp(case))
+        return
+    keep, kept_ok, sym, rest = int(nums[0]), int(nums[1]), int(nums[2]), nums[3:]
+    want_keep = m - int(np.sum(s_ < 1e-4))
+    ctx.count("tps-svd:%s" % ("all-kept" if keep == m else "dropped-%d" % (m - keep)))
+    if keep != want_keep or kept_ok != 1 or sym != 1:
+        ctx.mismatch("tps", "as-coded model: keep=%d (expected %d), kept singular values above the threshold=%d, "
+                     "symmetric system=%d" % (keep, want_keep, kept_ok, sym), rp(case))
+        return
+    coef, rest = take(rest, m * 2)
+    csc = norm_scale(pend["coef"])
+    trunc = bool(case.get("truncated"))
+    got_c = np.asarray(pend["coef"], dtype=float).reshape(m, 2)
+    want_c = np.array([float(x) for x in coef]).reshape(m, 2)
+    P = pend["tps_probe_out"]
+    want_p = np.array([float(x) for x in rest]).reshape(P.shape)
+    agree = bool(np.allclose(got_c, want_c, rtol=0, atol=1e-8 * (1 + csc * 100)) and
+                 np.allclose(P, want_p, rtol=0, atol=1e-8 * (1 + norm_scale(P) * 100)))
+    if trunc:
+        ctx.count("tps:truncated-system:code-vs-model=%s" % ("agree" if agree else "DIFFER"))
+    elif not agree:
+        ctx.mismatch("tps", "as-coded model (truncated-SVD branch, nothing dropped): coefficients / probe values differ "
+                     "(max %g / %g)" % (float(np.max(np.abs(got_c - want_c))), float(np.max(np.abs(P - want_p)))), rp(case))
+
+
 def compare(ctx, cid, pend, model):
+    if pend.get("gpa"):
+        return compare_gpa(ctx, cid, pend, model)
+    if pend.get("degenerate"):
+        return compare_degenerate(ctx, cid, pend, model)
     case, obs = pend["case"], pend["obs"]
     cls, o = case["cls"], case["opts"]
     Sp, Tp = np.array(case["S"], dtype=float), np.array(case["T"], dtype=float)
     n, d = Sp.shape
     sc = norm_scale(Sp, Tp)
+    TOL = case_tol(case)
+    op = cls
+    if cls == "tps":
+        compare_tps_svd(ctx, cid, pend, model)
+        if case.get("truncated"):
+            return
     rep = model.get(cid + ".fit", "")
     nums = parse_nums(rep)
-    op = cls
     hh = (d + 1) * (d + 1)
     if nums is None:
         ctx.mismatch(op, "model answered %r where the implementation produced an alignment" % rep, rp(case))
         return
     e2 = obs["true_err"] ** 2
     tol2 = TOL * (1 + sc * sc * n * d)
+    # landmarks 2^20 from the origin: the translation column is a difference of numbers of that size
+    hscale = max(sc, norm_scale(obs["H"])) if ("far" in case.get("shape", []) and "H" in obs) else None
     if cls in ("translation", "affine"):
         Hm, rest = take(nums, hh)
-        cmp_mat(ctx, op, "h_matrix", obs["H"], Hm, (d + 1, d + 1), case)
+        cmp_mat(ctx, op, "h_matrix", obs["H"], Hm, (d + 1, d + 1), case, scale=hscale, tol=TOL)
         if abs(e2 - float(rest[0])) > tol2:
             ctx.mismatch(op, "squared error: implementation %.12g vs model optimum %.12g" % (e2, float(rest[0])), rp(case))
     elif cls == "scale":
@@ -962,7 +1605,7 @@ def compare(ctx, cid, pend, model):
             ctx.mismatch(op, "norm contract: target.norm()^2=%.12g vs exact %.12g, source.norm()^2=%.12g vs exact %.12g"
                          % (rT * rT, float(n2T), rS * rS, float(n2S)), rp(case))
         Hm, rest = take(nums[2:], hh)
-        cmp_mat(ctx, op, "h_matrix", obs["H"], Hm, (d + 1, d + 1), case)
+        cmp_mat(ctx, op, "h_matrix", obs["H"], Hm, (d + 1, d + 1), case, scale=hscale, tol=TOL)
         if not common.close(float(rest[0]), float(n2T), float(n2T), TOL):
             ctx.mismatch(op, "model: size of aligned source %.12g vs target %.12g" % (float(rest[0]), float(n2T)), rp(case))
     elif cls == "rotation":
@@ -978,7 +1621,9 @@ def compare(ctx, cid, pend, model):
         ctx.count("svd-contract:" + ("ok" if okc else "BROKEN"))
         if not okc:
             ctx.mismatch(op, "np.linalg.svd contract does not hold against the exact correlation matrix", rp(case))
-        cmp_mat(ctx, op, "rotation matrix", obs["H"][:d, :d], R, (d, d), case, scale=1.0)
+        cmp_mat(ctx, op, "rotation matrix", obs["H"][:d, :d], R, (d, d), case, scale=1.0, tol=TOL)
+        cmp_mat(ctx, op, "optimal_rotation_matrix(source, target)", pend["fn_R"], R, (d, d), case, scale=1.0, tol=TOL)
+        ctx.count("public-function:optimal_rotation_matrix")
         if abs(e2 - float(err2m)) > tol2:
             ctx.mismatch(op, "squared error: implementation %.12g vs model %.12g" % (e2, float(err2m)), rp(case))
         ctx.count("rotation-branch:" + ("corrected" if (float(detuv) < 0 and not o["mirror"]) else "plain"))
@@ -1007,7 +1652,9 @@ def compare(ctx, cid, pend, model):
             ctx.count("svd-contract:" + ("ok" if okc else "BROKEN"))
             if not okc:
                 ctx.mismatch(op, "np.linalg.svd contract does not hold against the model's exact correlation matrix", rp(case))
-        cmp_mat(ctx, op, "h_matrix", obs["H"], Hm, (d + 1, d + 1), case)
+        cmp_mat(ctx, op, "h_matrix", obs["H"], Hm, (d + 1, d + 1), case, scale=hscale, tol=TOL)
+        cmp_mat(ctx, op, "procrustes_alignment(source, target).h_matrix", pend["fn_H"], Hm, (d + 1, d + 1), case, scale=hscale, tol=TOL)
+        ctx.count("public-function:procrustes_alignment")
         if abs(e2 - float(err2m)) > tol2 * 10:
             ctx.mismatch(op, "squared error: implementation %.12g vs model %.12g" % (e2, float(err2m)), rp(case))
         cent = rest[3:3 + 2 * d]
@@ -1019,14 +1666,32 @@ def compare(ctx, cid, pend, model):
         cmp_mat(ctx, op, "coefficients", pend["coef"], coef, (n + 3, 2), case, scale=csc * 100, tol=1e-8)
         P = pend["tps_probe_out"]
         cmp_mat(ctx, op, "spline at probe points", P, rest, P.shape, case, scale=norm_scale(P) * 100, tol=1e-8)
+        if cid + ".aff" in model:
+            # target = affine(source): the model's system is invertible and its bending block is *exactly* zero
+            # (theorem tps_affine_no_bending); the implementation's bending block vanishes up to rounding
+            ra = model[cid + ".aff"].split()
+            ctx.count("tps-affine:model-invertible=%s,bending-zero=%s" % tuple(ra[1:3]) if len(ra) >= 3 else "tps-affine:" + " ".join(ra))
+            if ra[:3] != ["ok", "1", "1"]:
+                ctx.mismatch(op, "target is an affine image of the source but the model answers %r (expected an "
+                             "invertible system with zero bending part)" % " ".join(ra), rp(case))
+            bend = pend["bending"]
+            if float(np.max(np.abs(bend))) > 1e-7 * (1 + csc):
+                ctx.mismatch(op, "target is an affine image of the source but the implementation's bending "
+                             "coefficients are not zero (max %g)" % float(np.max(np.abs(bend))), rp(case))
     elif cls == "pwa":
         tk = rep.split()[1:]
+        ctx.count("pwa-conformity-certificate:" + tk[0])
+        if tk[0] != "1":
+            ctx.mismatch(op, "the triangle list the alignment works with fails the model's conformity certificate "
+                         "(pwaCertB): degenerate or overlapping triangles", rp(case, alignment_trilist=pend["trilist"]))
+        tk = tk[1:]
         pos = 0
         outs = []
         while pos < len(tk):
             if tk[pos] == "1":
-                outs.append((float(F(tk[pos + 1])), float(F(tk[pos + 2])), int(tk[pos + 3])))
-                pos += 4
+                outs.append((float(F(tk[pos + 1])), float(F(tk[pos + 2])), int(tk[pos + 3]),
+                             float(F(tk[pos + 4])), float(F(tk[pos + 5]))))
+                pos += 6
             else:
                 outs.append(None)
                 pos += 1
@@ -1044,6 +1709,9 @@ def compare(ctx, cid, pend, model):
             elif q is not None:
                 if not np.allclose(q, m[:2], rtol=0, atol=TOL * (1 + sc)) or ti != m[2]:
                     ctx.mismatch(op, "interior point: implementation %r (triangle %r) vs model %r" % (q.tolist(), ti, m), rp(case, probe=pr))
+                ab = obs["probe_ab"][k]
+                if ab is not None and not np.allclose(ab, m[3:5], rtol=0, atol=1e-9):
+                    ctx.mismatch(op, "index_alpha_beta: implementation (alpha, beta) = %r vs model %r" % (list(ab), m[3:5]), rp(case, probe=pr))
         for v in range(n):
             m = outs[len(probes) + v]
             if m is None or not np.allclose(obs["applied"][v], m[:2], rtol=0, atol=TOL * (1 + sc)):
@@ -1072,13 +1740,86 @@ def compare(ctx, cid, pend, model):
                 ctx.count("construct:%s:%s" % (CLASSNAME[cls], match[0]))
 
 
+# ============================================================================ regenerated entry table
+
+def entry_table():
+    """constructor signatures and method providers of the live alignment classes; two live GPA objects"""
+    import inspect
+    import menpo.transform as mt
+    from menpo.transform.piecewiseaffine.base import PythonPWA, CachedPWA
+    rows = []
+    for c in [mt.AlignmentTranslation, mt.AlignmentUniformScale, mt.AlignmentRotation, mt.AlignmentSimilarity,
+              mt.AlignmentAffine, mt.ThinPlateSplines, CachedPWA, PythonPWA, mt.GeneralizedProcrustesAnalysis]:
+        sig = inspect.signature(c.__init__)
+        ps = [(n_, "" if p_.default is inspect.Parameter.empty else repr(p_.default))
+              for n_, p_ in list(sig.parameters.items())[1:]]
+        prov = []
+        for m in ("aligned_source", "alignment_error", "set_target", "_sync_state_from_target"):
+            for k in c.__mro__:
+                if m in k.__dict__:
+                    prov.append((m, k.__name__))
+                    break
+        rows.append((c.__name__, ps, prov))
+    live = []
+    base = np.array([[0.0, 0.0], [2.0, 0.0], [2.0, 1.0], [0.0, 3.0]])
+    for m in (False, True):
+        shapes = [make_shape((base * s_ + t_).tolist()) for s_, t_ in ((1.0, 0.0), (2.0, 1.0), (0.5, -3.0))]
+        g = mt.GeneralizedProcrustesAnalysis(shapes, allow_mirror=m)
+        t0 = g.transforms[0]
+        live.append((m, len(shapes), len(g.transforms), type(t0).__name__, bool(getattr(t0, "rotation", False)),
+                     bool(getattr(t0, "allow_mirror", not m)), int(getattr(g, "max_iterations", -1))
+                     if all(type(t).__name__ == type(t0).__name__ and bool(getattr(t, "allow_mirror", not m)) == bool(getattr(t0, "allow_mirror", not m))
+                            for t in g.transforms) else -2))
+    return rows, live
+
+
+def generated(ctx):
+    rows, live = entry_table()
+
+    def esc(x):
+        return '"%s"' % str(x).replace("\\", "\\\\").replace('"', '\\"')
+
+    def pl(l):
+        return "[" + ", ".join("(%s, %s)" % (esc(a), esc(b)) for a, b in l) + "]"
+
+    def lb(b):
+        return "true" if b else "false"
+    body = ",\n   ".join("⟨%s, %s, %s⟩" % (esc(c), pl(ps), pl(pv)) for c, ps, pv in rows)
+    lv = ",\n   ".join("⟨%s, %d, %d, %s, %s, %s, %d⟩" % (lb(m), ns, nt, esc(mc), lb(r), lb(mm), max(mi, 0))
+                       for m, ns, nt, mc, r, mm, mi in live)
+    gen = ("/- REGENERATED by harness/c07.py from the live alignment classes on every run: constructor parameters with\n"
+           "   their defaults, which class of the MRO supplies aligned_source / alignment_error / set_target /\n"
+           "   _sync_state_from_target, and what two live GeneralizedProcrustesAnalysis objects hold.  Do not edit. -/\n"
+           "import MenpoModel.Core.C07Table\n\nnamespace MenpoModel.Generated.C07\nopen MenpoModel.C07\n\n"
+           "def entries : List EntryRow :=\n  [%s]\n\ndef gpaLive : List GpaLive :=\n  [%s]\n\n"
+           "end MenpoModel.Generated.C07\n" % (body, lv))
+    ctx.notes["entry_table"] = {c: {"params": ps, "providers": pv} for c, ps, pv in rows}
+    ok = common.build_generated(ctx, {"MenpoModel/Generated/C07Entries.lean": gen},
+                                ["MenpoModel.Generated.C07Entries", "MenpoModel.GenProps.C07"], 2)
+    if not ok and ctx.broken_obligations:
+        ctx.broken_obligations[-1]["obligation"] = "MenpoModel.GenProps.C07.entries_wf / gpa_live_ok"
+        ctx.broken_obligations[-1]["observed"] = {"entries": ctx.notes["entry_table"], "gpa_live": live}
+    return ok
+
+
 # ============================================================================ runs
 
 def gen_case(rng, k):
     case = _gen_case(rng, k)
-    if isinstance(case, dict) and case.get("cls") in ("translation", "scale", "affine", "rotation", "similarity", "tps") \
-            and rng.random() < 0.3:
+    cls = case.get("cls")
+    if cls in ("translation", "scale", "affine", "rotation", "similarity", "tps", "pwa") and rng.random() < 0.3:
         case["life"] = "retargeted"
+    if cls in ("translation", "scale", "affine", "rotation", "rotx", "similarity", "tps") and rng.random() < 0.5:
+        # the alignments read nothing but the points: sources / targets of every shape class, whatever they carry
+        case["opts"] = dict(case["opts"], source_class=rng.choice(SHAPE_CLASSES), target_class=rng.choice(SHAPE_CLASSES))
+    if cls == "gpa" and rng.random() < 0.5:
+        case["src_classes"] = [rng.choice(SHAPE_CLASSES) for _ in case["S"]]
+        case["tgt_class"] = rng.choice(SHAPE_CLASSES)
+    if cls in ("translation", "scale", "affine", "rotation", "similarity", "tps", "pwa") and rng.random() < 0.2:
+        case["dtype"] = "int"          # integer-typed point arrays where every coordinate is integral
+    elif cls in ("translation", "scale", "affine", "rotation", "similarity") and "far" not in case.get("shape", []) \
+            and rng.random() < 0.12:
+        case["dtype"] = "f32"          # float32 point arrays (small dyadics are exact in float32); tolerance 1e-4
     return case
 
 
@@ -1097,6 +1838,8 @@ def _gen_case(rng, k):
         return gen_tps_case(rng)
     if slot in (13, 14):
         return gen_pwa_case(rng)
+    if k % 64 == 47:
+        return gen_degenerate_case(rng)
     return gen_gpa_case(rng)
 
 
@@ -1116,6 +1859,8 @@ def witness_cases():
 def is_nontrivial(case):
     if case["cls"] == "gpa":
         return True
+    if case.get("degenerate"):
+        return False
     return not np.array_equal(np.array(case["S"]), np.array(case["T"]))
 
 
@@ -1179,7 +1924,13 @@ def search(ctx):
 
 
 def run(ctx):
-    common.prepare_lean(ctx, PROP, IMPORTS, THEOREMS)
+    generated(ctx)
+    if ctx.broken_obligations:
+        # the live classes no longer have the entry points the model is written for: audit what still builds and
+        # let the oracle look for an input on which the difference shows
+        common.prepare_lean(ctx, PROP, IMPORTS[:1], [t for t in THEOREMS if ".GenProps." not in t])
+    else:
+        common.prepare_lean(ctx, PROP, IMPORTS, THEOREMS, targets=TARGETS)
     ctx.trusted += ["np.linalg.svd contract (checked numerically per case against the model's exact correlation matrix)",
                     "np.linalg.norm / sqrt contract (checked numerically per case against the exact squared norm)",
                     "scipy.spatial.Delaunay returns a conforming triangulation (hypothesis of the PWA theorems)"]
